@@ -35,7 +35,7 @@ RULE = ("each run is a history of 1-6 client operations (get with/without query,
         "unreadable) and the bytes its peer decrypted plus the order of the pin lookup and the "
         "first application send are checked. distinct = distinct (operation, classification, "
         "reader) vectors; non-trivial = at least one changed or unreadable connection occurred")
-PROBES = ["restart_more_than_a_year_later", "client_used_as_context_manager_in_between", "connection_fails_at_accept_first", "ca_validation_on_as_well", "impostor_connection", "unreadable_connection", "impostor_never_reads",
+PROBES = ["storage_fault_while_client_is_created", "restart_more_than_a_year_later", "client_used_as_context_manager_in_between", "connection_fails_at_accept_first", "ca_validation_on_as_well", "impostor_connection", "unreadable_connection", "impostor_never_reads",
           "impostor_lazy", "upload_to_impostor", "redirect_hop_to_impostor", "ordering_checked",
           "large_upload", "sql_fault_during_operation", "overlapping_operations_one_endpoint"]
 COMPONENTS = {
@@ -70,7 +70,7 @@ def run_one(ch):
     model = {}
     hist = []
     st = {"imp": 0, "unread": 0, "never": 0, "lazy": 0, "upimp": 0, "redirimp": 0, "order": 0,
-          "large": 0, "sqlfault": 0, "overlap": 0, "ctx": 0, "failonce": 0, "yearlater": 0}
+          "large": 0, "sqlfault": 0, "overlap": 0, "ctx": 0, "failonce": 0, "yearlater": 0, "ctorfault": 0}
     judged = []
 
     def endpoint(label):
@@ -100,9 +100,32 @@ def run_one(ch):
             if op == 8:
                 # more than a year later the program is started again on the same store
                 await asyncio.sleep(400 * 86400.0)
-                client = GeminiClient(timeout=8.0, tofu_db_path=pathlib.Path(w.db_path), verify_ssl=ca_mode)
-                db = client.tofu_db
-                hist.append("400 days later: new client object on the same store")
+                # ... possibly while the store hiccups (locked by another process, I/O error):
+                # then there is no client - never one that works without the pins
+                SEAM.fired = None
+                if ch.chance("ctorfault", 0.4):
+                    SEAM.fault_at = SEAM.tick + 1 + ch.choose("ctortick", 3)
+                    SEAM.fault_kind = "error:" + ch.pick("ctorerr", ["database is locked", "disk I/O error",
+                                                                      "unable to open database file"])
+                try:
+                    newc = GeminiClient(timeout=8.0, tofu_db_path=pathlib.Path(w.db_path), verify_ssl=ca_mode)
+                except Exception as e:  # noqa
+                    newc = None
+                    hist.append(f"400 days later: creating a new client failed ({type(e).__name__})")
+                SEAM.fault_at = None
+                if SEAM.fired:
+                    st["ctorfault"] += 1
+                if newc is not None:
+                    client = newc
+                    db = client.tofu_db
+                    hist.append("400 days later: new client object on the same store"
+                                + (" [storage fault while it was created]" if SEAM.fired else ""))
+                    if SEAM.fired:
+                        if db is None or str(getattr(db, "db_path", w.db_path)) != str(w.db_path):
+                            res.violate("C11/client-without-its-pin-store",
+                                        "a storage fault while the client was created produced a client "
+                                        "that does not use the configured pin store", history=hist[-6:])
+                            db = TOFUDatabase(pathlib.Path(w.db_path))
                 st["yearlater"] += 1
                 continue
             if op == 7:
@@ -338,7 +361,8 @@ def run_one(ch):
                      "overlapping_operations_one_endpoint": "overlap",
                      "client_used_as_context_manager_in_between": "ctx",
                      "connection_fails_at_accept_first": "failonce",
-                     "restart_more_than_a_year_later": "yearlater"}.items():
+                     "restart_more_than_a_year_later": "yearlater",
+                     "storage_fault_while_client_is_created": "ctorfault"}.items():
         if st[k]:
             res.stats[probe] += 1
     res.stats["operations"] += len(judged)
